@@ -97,11 +97,15 @@ structure StA where
   pc      : Nat → PcA
   /-- items in the window queue of scheduler `s` -/
   qcount  : Nat → Nat
+  /-- the `done` set of the last wait-return of `s` that `co_run` has not reacted to yet
+      (`_tidy_tasks_exception` yields to the event loop when a job of `done` raised) -/
+  rx      : Nat → Option (List Nat)
   now     : Nat
 
 def StA.init : StA :=
   { ph := fun _ => .idle, creq := fun _ => false, rflag := fun _ => false, deliv := fun _ => false,
-    entries := fun _ => 0, dbl := false, pc := fun _ => .notBegun, qcount := fun _ => 0, now := 0 }
+    entries := fun _ => 0, dbl := false, pc := fun _ => .notBegun, qcount := fun _ => 0, rx := fun _ => none,
+    now := 0 }
 
 inductive EvA
   /-- `run()` calls `co_run` of the top-level scheduler -/
@@ -112,10 +116,13 @@ inductive EvA
   | bodyEnd (j : Nat) (ok : Bool)
   /-- the cancelled task of `j` finishes (an atomic job in any live phase; a scheduler never begun) -/
   | cancelAck (j : Nat)
-  /-- the main `asyncio.wait` of `s` returns its finished, not yet reported jobs; the run then either
-      goes on (starts what can start) or leaves the loop, calling `cancel()` on the tasks `K` -/
-  | waitReturn (s : Nat) (leave : Bool) (K : List Nat)
-  /-- `s` leaves its main loop without a completion (expiry, or it was cancelled), cancelling `K` -/
+  /-- the main `asyncio.wait` of `s` returns its finished, not yet reported jobs -/
+  | waitReturn (s : Nat)
+  /-- `co_run` of `s` reacts to that `done` set (in the same loop iteration, or a few iterations later
+      when a job of the set raised): it either goes on (starts what can start) or leaves the loop,
+      calling `cancel()` on the tasks `K` -/
+  | react (s : Nat) (leave : Bool) (K : List Nat)
+  /-- `s` leaves its main loop without reacting to a completion (expiry, or it was cancelled), cancelling `K` -/
   | leave (s : Nat) (K : List Nat)
   /-- `co_run` of scheduler `s` ends: returns / raises `r`, or (`none`) ends cancelled -/
   | finish (s : Nat) (r : Option Res)
@@ -133,11 +140,11 @@ def doneSet (c : Cfg) (st : StA) (s : Nat) : List Nat :=
 def entrySet (c : Cfg) (s : Nat) : List Nat :=
   (c.children s).filter fun k => (c.req k).isEmpty
 
-/-- the candidates examined after a wait-return (1065-1085): successors of a job of `D`, not
-    `is_running()`, all requirements `is_done()` -/
+/-- the candidates examined in reaction to the `done` set `D` (1065-1085): successors of a job of `D`,
+    not yet scheduled (`is_scheduled()`, after the repair of defect D10), all requirements `is_done()` *now* -/
 def startCands (c : Cfg) (st : StA) (s : Nat) (D : List Nat) : List Nat :=
   (c.children s).filter fun k =>
-    !st.rflag k && (c.req k).any (· ∈ D) && (c.req k).all (fun r => (st.ph r).isDone)
+    st.ph k == .idle && (c.req k).any (· ∈ D) && (c.req k).all (fun r => (st.ph r).isDone)
 
 /-- `_create_task` for each job of `S`: idle jobs become queued; a job that already has a task sets `dbl` -/
 def startJobs (st : StA) (S : List Nat) : StA :=
@@ -151,7 +158,7 @@ def beginRun (c : Cfg) (st : StA) (s : Nat) : StA :=
     -- "empty schedulers are fine too": returns True at once
     { st with ph := setAt st.ph s (.done (.retBool true)), pc := setAt st.pc s .over }
   else
-    startJobs { st with pc := setAt st.pc s .loop, qcount := setAt st.qcount s 0 } (entrySet c s)
+    startJobs { st with pc := setAt st.pc s .loop, qcount := setAt st.qcount s 0, rx := setAt st.rx s none } (entrySet c s)
 
 def slotFree (c : Cfg) (st : StA) (p : Nat) : Bool := c.window p == 0 || st.qcount p < c.window p
 
@@ -184,19 +191,27 @@ def stepA (c : Cfg) (st : StA) : EvA → Option StA
       let st1 : StA := { st with ph := setAt st.ph j .cancelled, creq := setAt st.creq j false }
       some (if st.ph j = .running then release c st1 j else st1)
     else none
-  | .waitReturn s leave K =>
+  | .waitReturn s =>
     let D := doneSet c st s
-    if s < c.n ∧ c.isSched s = true ∧ st.pc s = .loop ∧ D ≠ [] ∧
-       (leave = true ∨ K = []) ∧ (∀ k ∈ K, k ∈ c.children s ∧ (st.ph k).live = true) then
-      let st1 : StA := { st with deliv := fun k => st.deliv k || decide (k ∈ D) }
-      if leave then
-        some { st1 with pc := setAt st.pc s .exiting, creq := fun k => st.creq k || decide (k ∈ K) }
-      else
-        some (startJobs st1 (startCands c st1 s D))
+    if s < c.n ∧ c.isSched s = true ∧ st.pc s = .loop ∧ st.rx s = none ∧ D ≠ [] then
+      some { st with deliv := (fun k => st.deliv k || decide (k ∈ D)), rx := setAt st.rx s (some D) }
     else none
+  | .react s leave K =>
+    match st.rx s with
+    | none => none
+    | some D =>
+      if s < c.n ∧ c.isSched s = true ∧ st.pc s = .loop ∧
+         (leave = true ∨ K = []) ∧ (∀ k ∈ K, k ∈ c.children s ∧ (st.ph k).live = true) then
+        let st1 : StA := { st with rx := setAt st.rx s none }
+        if leave then
+          some { st1 with pc := setAt st.pc s .exiting, creq := fun k => st.creq k || decide (k ∈ K) }
+        else
+          some (startJobs st1 (startCands c st1 s D))
+      else none
   | .leave s K =>
     if s < c.n ∧ c.isSched s = true ∧ st.pc s = .loop ∧ (∀ k ∈ K, k ∈ c.children s ∧ (st.ph k).live = true) then
-      some { st with pc := setAt st.pc s .exiting, creq := fun k => st.creq k || decide (k ∈ K) }
+      some { st with pc := setAt st.pc s .exiting, rx := setAt st.rx s none,
+                     creq := fun k => st.creq k || decide (k ∈ K) }
     else none
   | .finish s r =>
     if s < c.n ∧ c.isSched s = true ∧ st.pc s = .exiting ∧ st.ph s = .running then
@@ -206,10 +221,11 @@ def stepA (c : Cfg) (st : StA) : EvA → Option StA
       some (if s = 0 then st1 else release c st1 s)
     else none
   | .tick d =>
-    -- urgency (A2): the clock does not advance while a job could take a free slot or a main wait could return
+    -- urgency (A2): the clock does not advance while a job could take a free slot, a main wait could return,
+    -- or a reaction is pending
     if 0 < d ∧
        (∀ j ∈ List.range c.n, ¬ (0 < j ∧ st.ph j = .queued ∧ st.creq j = false ∧ slotFree c st (c.parent j) = true)) ∧
-       (∀ s ∈ List.range c.n, ¬ (c.isSched s = true ∧ st.pc s = .loop ∧ doneSet c st s ≠ [])) then
+       (∀ s ∈ List.range c.n, ¬ (c.isSched s = true ∧ st.pc s = .loop ∧ (doneSet c st s ≠ [] ∨ st.rx s ≠ none))) then
       some { st with now := st.now + d }
     else none
 
